@@ -12,6 +12,7 @@ from ..engine import cfg as cfgmod, flow
 from ..engine import pattern as P
 from ..engine.facts import dotted, const, src, walk_func, enclosing_stmt, ancestors
 from .common import calls, stmt_nodes, exc_successors, norm_successors, contains, is_subclass, param_default, pn, access_paths, guards_of, return_leaves, arms, branch_paths
+from .common import _fold_not as fold_not
 
 
 @rule("C14.failure-cleanup", min_instances=4)
@@ -80,11 +81,20 @@ def freshness_polarity(ctx):
     c = cmps[0]
     l, op, r = _norm_cmp(c)
     ifn = enclosing_stmt(c)
-    ctx.require(isinstance(ifn, ast.If) and ifn.test is c, "freshness comparison is not the test of an if statement")
     T_ = pn(ck, 2)
     U_ = pn(ck, 1)
-    ret_cached = any(isinstance(s, ast.Return) and src(s.value) == T_ for s in ifn.body)
-    ret_cached_else = any(isinstance(s, ast.Return) and src(s.value) == T_ for s in ifn.orelse)
+    # the alternatives _check returns, with the outcome of the comparison they are returned under
+    ft, fv = fold_not(c, True)
+    ckey = src(ft)
+    lv = return_leaves(ck)
+    ret_cached = any(src(v_) == T_ and (ckey, fv) in g_ for v_, g_ in lv)
+    ret_cached_else = any(src(v_) == T_ and (ckey, not fv) in g_ for v_, g_ in lv)
+    if not ret_cached and not ret_cached_else:
+        # statement form: the cached template is returned inside the branch, the reload follows
+        par = [a_ for a_ in ancestors(c) if isinstance(a_, ast.If) and a_.test is c]
+        if par:
+            ret_cached = any(isinstance(s, ast.Return) and src(s.value) == T_ for s in par[0].body)
+            ret_cached_else = any(isinstance(s, ast.Return) and src(s.value) == T_ for s in par[0].orelse)
     mt = "ST_MTIME" in r or "st_mtime" in r or "getmtime" in r
     ctx.check(mt, "compare.mtime", db.where(c), "compile time is compared with %s, not the source's modification time" % r, "compared with %s" % r)
     # r must derive from os.stat(template.filename)
@@ -162,9 +172,12 @@ def search_order(ctx):
     gcfg = cfgmod.function_cfg(hfn)
     gets = [x for c in calls(hfn, "self.get_template") for x in stmt_nodes(gcfg, c)]
     sup = [r for r in walk_func(hfn) if isinstance(r, ast.Return) and isinstance(r.value, ast.Call) and "has_template" in (dotted(r.value.func) or "")]
-    for r in [r for r in walk_func(hfn) if isinstance(r, ast.Return) and isinstance(r.value, ast.Constant) and r.value.value is True]:
+    for i_, (v_, g_) in enumerate([(v_, g_) for v_, g_ in return_leaves(hfn) if isinstance(v_, ast.Constant) and v_.value is True]):
+        r = enclosing_stmt(v_)
         p = gcfg.path_avoiding(gcfg.entry, gcfg.nodes_of(r), gets)
-        ctx.check(p is None, "has_template.true-via-get:%d" % (r.lineno - hfn.lineno), db.where(r), "%s answers True on a path that never asks get_template (%s): a cached URI whose file has vanished is still reported as present" % (eff, gcfg.fmt_path(p)), "True only after get_template succeeded")
+        if p is None and isinstance(r, ast.Return) and isinstance(r.value, ast.IfExp):
+            p = [gcfg.entry]  # True is one arm of a conditional return: it is not preceded by the get_template in another arm
+        ctx.check(p is None, "has_template.true-via-get:%d" % i_, db.where(r), "%s answers True on a path that never asks get_template (%s): a cached URI whose file has vanished is still reported as present" % (eff, gcfg.fmt_path(p)), "True only after get_template succeeded")
     ht = db.func("lookup.TemplateCollection.has_template")
     hs = [h for n in walk_func(ht) if isinstance(n, ast.Try) for h in n.handlers]
     ctx.check(any(h.type is not None and "TemplateLookupException" in src(h.type) and any(isinstance(s, ast.Return) and const(s.value) is False for s in h.body) for h in hs),
